@@ -3,6 +3,6 @@ CONSTANTS
   NumLatches = 2
   MaxNest = 2
   NumFns = 2
-  MaxGor = 6
+  MaxGor = 5
 INVARIANTS TypeOK StoppedAllCancelled WorkingOnePerFn AtMostOneLive
 PROPERTIES NoBeginWhileStopped CheckSound ResumeOnlyAfterIdleReads
